@@ -21,4 +21,15 @@ for g in guards/*$1*.diff; do
   done
   git -C /repo worktree remove --force $WT; rm -rf $VERIF_OUT; rm -f /verif/.bin/simcheck.$(printf '%s' "$WT" | cksum | cut -d' ' -f1)*
 done
-mv $OUT.tmp $OUT; awk -F'\t' '$3!=0' $OUT; echo "guards: $(awk -F'\t' '$3==0' $OUT | wc -l) check runs at exit 0, $(awk -F'\t' '$3!=0' $OUT | wc -l) not"
+python3 - "$OUT" <<'PYEOF'
+import sys,os
+out=sys.argv[1]
+new=[l for l in open(out+".tmp")]
+names={l.split("\t")[0] for l in new}
+old=[l for l in open(out)] if os.path.exists(out) else []
+keep=[l for l in old if l.split("\t")[0] not in names]
+rows=sorted(keep+new)
+open(out,"w").writelines(rows)
+os.remove(out+".tmp")
+PYEOF
+ awk -F'\t' '$3!=0' $OUT; echo "guards: $(awk -F'\t' '$3==0' $OUT | wc -l) check runs at exit 0, $(awk -F'\t' '$3!=0' $OUT | wc -l) not"
